@@ -292,4 +292,140 @@ theorem assemble (H : Hyp a T) (R : Ptr → Rat) {M A : List Word} {Lm La : Nat}
     have := (GA.open_ o2).1
     exact ⟨by omega, by show right'.length = _; rw [hr3 o2, o4]⟩
 
+
+theorem revealAfterLoop_inv (H : Hyp a T) (R : Ptr → Rat) {M A : List Word} {Lm La : Nat} {cM cA : Chart} {pM pA : Rat}
+    (GM : FragC a T R M Lm cM pM) (GA : FragC a T R A La cA pA) :
+    ∀ (fuel k Lp : Nat) (left : LeftSt) (right : State) (acc : Rat), k + fuel = La → PA a T R M A cM k Lp left right acc →
+      ∃ Lp', PA a T R M A cM La Lp'
+        (revealAfterLoop T R cA.left.pointers fuel k (left, right, acc)).1
+        (revealAfterLoop T R cA.left.pointers fuel k (left, right, acc)).2.1
+        (revealAfterLoop T R cA.left.pointers fuel k (left, right, acc)).2.2 := by
+  intro fuel
+  induction fuel with
+  | zero =>
+    intro k Lp left right acc hk I
+    have : k = La := by omega
+    subst this
+    exact ⟨Lp, I⟩
+  | succ fuel ih =>
+    intro k Lp left right acc hk I
+    obtain ⟨Lp', I'⟩ := revealAfter_step H R GM GA I (by omega)
+    simp only [revealAfterLoop]
+    exact ih (k+1) Lp' _ _ _ (by omega) I'
+
+/-- **RevealAfter, whole protocol**: after revealing all pointers of the following fragment (and its `full` flag) the
+left state is the canonical left state of the concatenation and the accumulated adjustment is  whole − parts. -/
+theorem revealAfterAll_frag (H : Hyp a T) (R : Ptr → Rat) {M A : List Word} {Lm La : Nat} {cM cA : Chart} {pM pA : Rat}
+    (GM : FragC a T R M Lm cM pM) (GA : FragC a T R A La cA pA) :
+    ∃ L' right', FragC a T R (M ++ A) L' { left := (revealAfterAll T R cM cA).1, right := right' }
+      (pM + pA + (revealAfterAll T R cM cA).2.2) := by
+  have hord : T.order = a.order := H.tf.order_eq
+  have hN2 := H.wf.order_ge
+  have hlenA : cA.left.length = La := by simp [LeftSt.length, GA.ptrs]
+  obtain ⟨Lp, I⟩ := revealAfterLoop_inv H R GM GA La 0 0 cM.left cM.right 0 (by omega) (PA.init R GM hN2)
+  unfold revealAfterAll
+  rw [hlenA]
+  generalize revealAfterLoop T R cA.left.pointers La 0 (cM.left, cM.right, 0) = st at I
+  obtain ⟨l, r, acc⟩ := st
+  simp only at I
+  have hLpLa : Lp ≤ La := I.Lp_le
+  have hLaA := GA.L_le
+  -- the buffer state after all pointers
+  let v : ExtendReturn := { nextUse := r.length, backIn := r.backoff.take r.length }
+  have IL : InvL a A [] M.reverse cM.right.length La v := by
+    refine ⟨I.nu_le, by have := I.hN; show La + 0 + 1 + r.length ≤ a.order; omega, ?_, ?_⟩
+    · show (r.backoff.take r.length).take r.length = _
+      rw [List.take_take, Nat.min_self, I.back]
+      simp only [List.append_nil]
+      rfl
+    · intro kk h1 h2; simpa using I.dead kk h1 h2
+  have hLp0 : cM.left.full = true → Lp = 0 := by
+    intro hf
+    by_cases hl : l.full = true
+    · rcases I.closed hl with ⟨_, h0⟩ | ⟨hc, _⟩
+      · exact h0
+      · rw [hf] at hc; cases hc
+    · have := (I.open_ (by simpa using hl)).1
+      rw [hf] at this; cases this
+  have hfullM : cM.left.full = true → l.full = true := by
+    intro hf
+    by_cases hl : l.full = true
+    · exact hl
+    · have := (I.open_ (by simpa using hl)).1
+      rw [hf] at this; cases this
+  -- closure when the left state was completed during the loop
+  have hclLoop : l.full = true → cM.left.full = false → Closed T (M ++ A) (M.length + Lp) := by
+    intro hl hM
+    rcases I.closed hl with ⟨hc, _⟩ | ⟨_, hcn | hlen⟩
+    · rw [hM] at hc; cases hc
+    · exact closed_of_cn H M A Lp (by omega) hcn
+    · by_cases hlt : Lp < A.length
+      · left
+        refine ⟨by simp; omega, ?_⟩
+        intro x
+        apply Classical.byContradiction; intro hne
+        have := H.ok.len_le _ hne
+        rw [pre_concat M A Lp hlt] at this
+        simp only [List.length_append, List.length_reverse, List.length_cons, List.length_nil] at this
+        have hpl : (pre A Lp).length = Lp + 1 := by simp [pre]; omega
+        omega
+      · right; right
+        exact ⟨by simp; omega, by rw [hord]; omega⟩
+  by_cases hfA : cA.left.full = true
+  · -- the final call: `reveal.full`
+    simp only [hfA, if_true]
+    have hps : ({ pointers := cA.left.pointers, full := true } : LeftSt).pointers.drop La = [] := by
+      show cA.left.pointers.drop La = []
+      exact List.drop_eq_nil_of_le (by rw [GA.ptrs]; simp)
+    have hv : extendLoop T R La (r.words.take r.length) (r.backoff.take r.length) [] (!l.full) =
+        { v with adjust := 0 + unRest T R [] (0 + La + 1) } := by
+      unfold extendLoop
+      have hal : (r.words.take r.length).length = r.length := by
+        rw [I.words, List.length_take]
+        have := I.nu_le; have := GM.right_for.len_le_h; simp only [List.length_reverse] at *; omega
+      cases l.full <;> simp [extendLoopWrite, extendLoopUse, hal, v, List.take_take]
+    obtain ⟨tf1, _⟩ := tail_sem H R GM GA v IL
+    obtain ⟨e1, _⟩ := tf1 hfA
+    have hres : revealAfter T R l r { pointers := cA.left.pointers, full := true } La =
+        (0 + 0 + (r.backoff.take r.length |>.take r.length).sum, (if l.full then l else { pointers := l.pointers ++ [], full := true }),
+          ({ length := 0 } : State)) := by
+      unfold revealAfter
+      dsimp only
+      rw [hps, hv]
+      simp only [unRest, List.map_nil, List.sum_nil, v]
+      cases hl : l.full <;> simp
+    rw [hres]
+    simp only
+    have hsum : ((r.backoff.take r.length).take r.length).sum = remaining a R A La M.reverse La := by
+      have := e1; simpa [v] using this
+    apply assemble H R GM GA (if l.full then l else { pointers := l.pointers ++ [], full := true }) v Lp _ IL hLpLa
+    · cases hl : l.full <;> simp [I.ptrs]
+    · exact I.xl
+    · exact I.bound
+    · exact hLp0
+    · rw [I.acc_eq, hsum]; grind
+    · intro hc
+      cases hl : l.full <;> simp [hl] at hc
+    · intro hf
+      have := hfullM hf
+      simp [this]
+    · intro hc hM
+      by_cases hl : l.full = true
+      · exact hclLoop hl hM
+      · obtain ⟨_, o2, o3⟩ := I.open_ (by simpa using hl)
+        rw [o2, Nat.add_comm]
+        have := closed_concat_full H M A La (GA.closed hfA) hLaA (by have := I.hN; rw [o3] at this; omega)
+        rwa [Nat.add_comm] at this
+  · have hfA' : cA.left.full = false := by simpa using hfA
+    simp only [hfA', Bool.false_eq_true, if_false]
+    obtain ⟨_, tf2⟩ := tail_sem H R GM GA v IL
+    obtain ⟨_, _, e3, _, _⟩ := tf2 hfA'
+    apply assemble H R GM GA l v Lp acc IL hLpLa I.ptrs I.xl I.bound hLp0
+    · rw [I.acc_eq, e3]; grind
+    · intro hc
+      obtain ⟨o1, o2, o3⟩ := I.open_ hc
+      exact ⟨o1, hfA', o2, o3⟩
+    · exact hfullM
+    · exact hclLoop
+
 end KV.Left
